@@ -17,4 +17,41 @@ def t_C12_Huge():
     return emit("C12_Huge", body)
 
 
-TABLES = {"C12_Huge": t_C12_Huge}
+def t_C12_FloatProbes():
+    """CPython's evaluation of the test in take_using_weights, `taken < i*weight / float(max_weight)`, on a
+    fixed list of adversarial triples (quotient next to an integer, operands next to powers of two, below and
+    beyond 2**53).  Coq re-evaluates every triple with its primitive binary64 operations (Proofs/C12_PrimFloat.v)."""
+    import inspect
+    import random
+    from prompt_toolkit import utils
+    src = inspect.getsource(utils.take_using_weights)
+    if "already_taken[item_i] < i * weight / float(max_weight)" not in src:
+        sys.stderr.write("gen_t_c12: the comparison in take_using_weights changed\n")
+        sys.exit(2)
+    rng = random.Random(20261001)
+    rows = []
+
+    def add(taken, iw, mw):
+        if 0 <= taken < 2 ** 53 and 0 <= iw < 2 ** 62 and 0 < mw < 2 ** 62:
+            i, weight, max_weight = iw, 1, mw
+            rows.append((taken, iw, mw, 1 if taken < i * weight / float(max_weight) else 0))
+    for _ in range(1500):
+        mw = rng.choice([rng.randint(1, 2 ** 53 - 1), rng.randint(1, 2 ** 27), 2 ** rng.randint(0, 52) + rng.randint(0, 3)])
+        iw = rng.choice([rng.randint(0, 2 ** 53 - 1), min(2 ** 53 - 1, mw * rng.randint(0, 2 ** 26) + rng.randint(0, 2))])
+        q = iw // mw
+        for t in (q - 1, q, q + 1):
+            add(t, iw, mw)
+    for _ in range(700):
+        mw = rng.choice([rng.randint(1, 2 ** 61), rng.randint(1, 2 ** 20), 2 ** rng.randint(0, 60) + rng.randint(0, 3)])
+        iw = rng.choice([rng.randint(2 ** 53, 2 ** 62 - 1), 2 ** rng.randint(53, 61) + rng.randint(0, 5),
+                         min(2 ** 62 - 1, max(2 ** 53, mw * rng.randint(1, 2 ** 40) + rng.randint(0, 2)))])
+        q = iw // mw
+        for t in (q - 1, q, q + 1):
+            add(t, iw, mw)
+    if len(rows) < 5000:
+        sys.exit(2)
+    body = "Definition float_probes : list (Z * Z * Z * Z) := [\n" + ";\n".join("(%d, %d, %d, %d)" % r for r in rows) + "].\n"
+    return emit("C12_FloatProbes", body)
+
+
+TABLES = {"C12_Huge": t_C12_Huge, "C12_FloatProbes": t_C12_FloatProbes}
